@@ -96,6 +96,8 @@ def enum_values(enums, name):
 
 def canon_value(v, s):
     """render a value with every character leaf expressed relative to the sampled input character s"""
+    if isinstance(v, int) and not isinstance(v, bool) and s is not None and s.isascii() and s.isalnum() and int(s, 36) == v:
+        return "\u00abdigit(c)\u00bb"
     if isinstance(v, tuple):
         if v[0] == "ch":
             if s is not None and v[1] == s:
@@ -379,7 +381,8 @@ def eval_desc(d, ch):
     if isinstance(d, str) and "\u00ab" in d and ch is not None:
         low = ch.lower() if ch.isascii() else ch
         up = ch.upper() if ch.isascii() else ch
-        return d.replace("\u00abc\u00bb", repr(ch)).replace("\u00ablower(c)\u00bb", repr(low)).replace("\u00abupper(c)\u00bb", repr(up))
+        dg = str(int(ch, 36)) if ch.isascii() and ch.isalnum() else "?"
+        return d.replace("\u00abc\u00bb", repr(ch)).replace("\u00ablower(c)\u00bb", repr(low)).replace("\u00abupper(c)\u00bb", repr(up)).replace("\u00abdigit(c)\u00bb", dg)
     if d == "c":
         return ch
     if d == "lower(c)":
@@ -703,6 +706,7 @@ def tokenizer_tables(ast, which):
             acq = make_acquire(smp)
             cfg = Config(acquire={"peek": acq["peek"], "get_char": acq["get_char"]}, primitives=set(crm) - {name}, inline={},
                          guards=guards, samples=smp, accessors={"name_buf", "name_buf_mut"})
+            cfg.int_params = {"base": [10, 16]}
             cr[name] = project_fn(tabulate_fn(it, cfg, cl2))
         except Unsupported as e:
             out["errors"]["char_ref::" + name] = str(e)
@@ -738,11 +742,14 @@ def tabulate_fn(item, cfg, classes, char_params=(), self_obj="self", extra_env=N
                 env[pname] = run.choose("acq", "param " + pname, [(c, ("ch", c)) for c in all_samples])
             elif ty == "bool":
                 env[pname] = run.choose("guard", "param " + pname, [("true", True), ("false", False)])
+            elif pname in getattr(cfg, "int_params", {}):
+                env[pname] = run.choose("acq", "param " + pname, [(str(x), x) for x in cfg.int_params[pname]])
             elif pname in env:
                 pass
             else:
                 env[pname] = ("unk", pname)
         return run_body(run, item["body"], env)
+
 
     paths = explore(cfg, runner)
     groups = {}
